@@ -5056,6 +5056,9 @@ class DfaCompileCtx:
             # Check if the target has a matching fallthrough
             if isinstance(transition.target, DFProxyState) and not transition.target.can_eliminate() or isinstance(orig_state, DFProxyState) and not orig_state.can_eliminate(): continue
 
+            # Reaching an accept state is observable (DONE), so it can't be skipped over
+            if transition.target in self.dfa.accepting_states: continue
+
             effective = set(transition.on_values)
             if DFTransition.Else in transition.on_values:
                 effective.update(transition.target.compute_foreign_else_definition(orig_state))
@@ -5092,6 +5095,9 @@ class DfaCompileCtx:
 
             if len(transition.target.transitions) != 1 or DFTransition.Else not in transition.target.transitions[0].on_values:
                 continue
+
+            # An accept state is never a "dummy state", even if all it has is an Else fallthrough
+            if transition.target in self.dfa.accepting_states: continue
 
             to_replace = transition.target.transitions[0]
 
